@@ -530,6 +530,10 @@ func (s *State) update(v Value, path []Sel, nv Value) Value {
 		if !sel.Index.IsConst() {
 			// weak update: after a store at a symbolic index nothing is known about any element of the table
 			// (reads give arbitrary read-only elements; writing through them stays refused)
+			// (the element just stored is remembered for reads at the very same index term)
+			if len(path) == 1 {
+				return &ArrayV{N: c.N, Elem: c.Elem, Name: s.freshName("table.weak"), sym: map[int]Value{sel.Index.id: nv}}
+			}
 			return &ArrayV{N: c.N, Elem: c.Elem, Name: s.freshName("table.weak")}
 		}
 		n := &ArrayV{N: c.N, Elem: c.Elem, Vals: append([]Value{}, c.Vals...)}
